@@ -418,12 +418,12 @@ def bufferGuard (ed : Ed) (cmd : Bytes) : R Bool :=
     passed) -/
 theorem b_number (f : Nat) (ed ed1 : Ed) (loc cmd arg : Bytes) (txt : Option Bytes) (i : Nat) (b : Buf)
     (hd : isDigitC (arg.headD 0) = true)
-    (hb : ed.bufs.getD i none = some b) (hid : b.id = atoi arg)
-    (hfirst : ∀ j b', j < i → ed.bufs.getD j none = some b' → b'.id ≠ atoi arg)
+    (hb : ed.bufs.getD i none = some b) (hid : b.id = exAtoi arg)
+    (hfirst : ∀ j b', j < i → ed.bufs.getD j none = some b' → b'.id ≠ exAtoi arg)
     (hguard : bufferGuard ed cmd = some (false, ed1)) :
     runCmd (f + 1) ed "ec_buffer" loc cmd arg txt = some (0, ed1.bufsSwitch i) := by
   have hi := (mem_of_getD _ _ _ hb).2
-  have hfind : (List.range ed.bufs.length).find? (fun i => (ed.bufs.getD i none).map (·.id) == some (atoi arg)) = some i := by
+  have hfind : (List.range ed.bufs.length).find? (fun i => (ed.bufs.getD i none).map (·.id) == some (exAtoi arg)) = some i := by
     rw [List.find?_range_eq_some]
     refine ⟨by rw [hb]; simp [hid], by simpa using hi, ?_⟩
     intro j hj
